@@ -15,3 +15,4 @@ INVARIANT ViewEqualsIdeal
 INVARIANT ProxiesAgree
 INVARIANT ContentsAgree
 INVARIANT ReturnsAgree
+INVARIANT ReleaseReleases
